@@ -40,6 +40,17 @@ Dropped(s, kws) ==
     /\ \/ <<"*">> \in kws
        \/ \E i \in 1..Len(Lines(s)) : FirstToken(Lines(s)[i]) \in (kws \ {<<>>})
 
+(* --disable-config-keywords is a comma separated list: blanks around an item do not belong to it, empty items are ignored *)
+RECURSIVE SplitComma(_)
+SplitComma(s) ==
+    IF \A i \in 1..Len(s) : s[i] # "," THEN <<s>>
+    ELSE LET k == CHOOSE i \in 1..Len(s) : s[i] = "," /\ \A j \in 1..(i-1) : s[j] # ","
+         IN <<SubSeq(s, 1, k - 1)>> \o SplitComma(SubSeq(s, k + 1, Len(s)))
+RECURSIVE TrimBlankRight(_)
+TrimBlankRight(s) == IF s # <<>> /\ s[Len(s)] \in Blank THEN TrimBlankRight(SubSeq(s, 1, Len(s) - 1)) ELSE s
+TrimBlank(s) == TrimBlankRight(SkipBlank(s))
+ParseOption(s) == {TrimBlank(SplitComma(s)[i]) : i \in 1..Len(SplitComma(s))} \ {<<>>}
+
 IsBlankLine(l) == \A i \in 1..Len(l) : l[i] \in Blank
 
 (* what must be found in the backend: nothing, or the non-blank lines verbatim *)
